@@ -101,9 +101,15 @@ def cli_test_mode(run, failures):
                       "got": r2.stderr[-200:], "expected": "exit 0", "first": r1.stdout[:400],
                       "summary": f"C20 --test rejects the tool's own output: {src[:120]!r}"}
                 # the same classifiers as the API-level check
+                r3 = subprocess.run([exe] + flag + [q], capture_output=True, text=True, timeout=120)
+                used = F.whitespace_change_explained(r1.stdout, r3.stdout, ignore_comment_text=True) \
+                    if r3.returncode == 0 else None
                 if any(F.ml_text_stable("", t) is False for t in
                        F.re.findall(r"/\*.*?\*/", r1.stdout, F.re.S)):
                     fl["known"] = "C20-block-comment-reindent-unstable"
+                elif used:
+                    fl["known"] = sorted(used)[0]
+                fl["second"] = r3.stdout[:400]
                 failures.append(fl)
     finally:
         shutil.rmtree(tmp, ignore_errors=True)
